@@ -77,13 +77,13 @@ def _cfg_stage(prop, st, tier, base, od, tmpdir, repo):
 
 
 PROPS = {
-    'C01': seq_prop('seq_list', [st('c01', 'seq_list', 'c01', 400000, 8000000)],
+    'C01': seq_prop('seq_list', [st('c01', 'seq_list', 'c01', 400000, 8000000), st('c01-clang++', 'seq_list_clang', 'c01', 150000, 3000000)],
         'seeded operation histories (simulator in its one-task, fault-free configuration) refined against a reference list model; same harness that C09 runs with faults',
         'Seeded search over histories of append/prepend/insert/remove/ownsHandle/empty/invoke/forEach/forEachIf and the eventutil helpers with live, stale, empty and repeated handles; every return value, every invocation trace with argument values and the full observable content are compared with a vector-based model after every step; lists are drained at the end.',
         'Trusted: the reference model (sim-independent, ~100 lines) and the ledger. This is the fault-free control configuration of the C09 harness; no scheduler or fault is involved because the property has none.',
         'Each evaluation is one seeded history of 8-40 operations on a CallbackList<void(int, Payload)> (SingleThreading, MultipleThreading, or a comparable custom Callback type for hasListener/removeListener). '
         'Non-trivial = the history contains at least one invocation; distinct = distinct plan hashes.'),
-    'C02': seq_prop('seq_list', [st('c02', 'seq_list', 'c02', 600000, 6000000)],
+    'C02': seq_prop('seq_list', [st('c02', 'seq_list', 'c02', 600000, 6000000), st('c02-clang++', 'seq_list_clang', 'c02', 250000, 3000000)],
         'seeded re-entrant programs (callbacks carry scripts) executed in lockstep with a snapshot-semantics model; SimMutex / SpinLock one-task variants turn self-deadlock into a deterministic violation; ASan + ledger',
         'Seeded search over programs in which callbacks, to nesting depth 4, append/prepend/insert/remove (themselves and others)/enumerate/re-invoke the list being invoked and other lists of the same dispatcher. Every callback the real code runs is compared, at the moment it runs, with what snapshot semantics predicts; results of operations through removed handles are checked at every depth; content is compared after the outermost invocation; lists are drained.',
         'Trusted: the snapshot-semantics model, the ledger, the watchdog for real hangs. Policies: SingleThreading, MultipleThreading, real SpinLock, and SimMutex/SpinLock inside one simulated task.',
@@ -99,7 +99,7 @@ PROPS = {
         'Seeded search over histories that mix nine callback shapes (callable with exactly one prototype, with several, variadic), eight argument shapes (exact, convertible to one or several prototypes) and seven predicate shapes. The expected prototype of every shape is tabulated by hand ("first listed prototype it can be called with"). Checked: which callbacks run, in which order, with which (converted) argument values; queue FIFO across prototypes for process/processOne; processIf asks its predicate about exactly the queued events of its prototype and leaves every other event untouched and in place; payload integrity (pattern-filled 180-byte payload, tracked small payload, strings).',
         'Trusted: the hand-made prototype tables. For a predicate callable with several prototypes the oracle requires only exactly-once consumption with intact arguments (the statement leaves the rest open; a declining predicate legitimately lets later events overtake earlier ones). Harness types have explicit constructors so that no accidental conversion changes prototype selection.',
         'Each evaluation is one seeded history of 10-45 operations on one of the three heterogeneous classes (default and SingleThreading policies; one variant uses ArgumentPassingIncludeEvent with a std::string event supplied as lvalue, temporary and moved local), executed by a g++ build and a clang++ build (their evaluation order and implicit-move rules differ). Non-trivial = contains an invocation / dispatch / processing call; distinct = distinct plan hashes.'),
-    'C15': seq_prop('seq_remover', [st('c15', 'seq_remover', 'c15', 1000000, 8000000)],
+    'C15': seq_prop('seq_remover', [st('c15', 'seq_remover', 'c15', 1000000, 8000000), st('c15-exceptions', 'seq_remover', 'c15f', 10000, 250000, 120, 1200)],
         'seeded ScopedRemover lifecycle histories (add/remove through removers, reset, re-target, move construction, move assignment into empty and non-empty removers, swap, destruction in any order) against a responsibility model; attached set observed by enumeration after every step',
         'Seeded search over histories with up to 3 removers and 2 targets (CallbackList, EventDispatcher, EventQueue). The model tracks which remover is responsible for which listener; what a move assignment displaces from its destination enters a limbo set (accepted attached or detached, once seen detached it must stay so, and must be detached when the last remover involved is destroyed) - exactly the window the statement gives.',
         'Trusted: the responsibility model. Self-move-assignment is not generated; adding through a remover without a target (a null dereference by contract) is not generated.',
@@ -114,7 +114,7 @@ PROPS = {
         'Compile-time sweep: AnyData<N> for N in {1, 8, 16, 24, 64} (capacities 16, 16, 16, 24, 64) x 56 stored types: trivial byte arrays of 22 sizes from 1 to 200 bytes (every capacity, capacity + 1 and capacity + 2 among them), tracked non-trivial, move-only and shared-ownership types of 6-10 sizes each, and a trivially destructible but self-referential type (it stores its own address and its move constructor marks the source) in 8 sizes around the capacities, so that a byte-wise relocation instead of a move is visible. Per history: construction from lvalue and rvalue, chains of move constructions over 4 slots, reads through get / reference / pointer / getAddress (must agree and be stable), isType for the stored type and for a different type of the same size and kind, queue round trips (enqueue, process / processOne) with the listener reading the value, destruction in any order; inline-vs-heap placement is checked against the capacity; no copy construction of the held object may happen while an AnyData is moved or enqueued as an rvalue; the ledger demands exactly one destruction per instance and nothing alive at the end.',
         'Trusted: the ledger. Bound: stored types with alignment <= alignof(void*). takeEvent cannot be instantiated for AnyData arguments (AnyData deletes move assignment), so queue round trips use process / processOne.',
         'Each evaluation is one seeded history of 6-25 operations on one (N, stored type) pair. Non-trivial = contains a move construction or a queue round trip; distinct = distinct plan hashes.'),
-    'C19': seq_prop('seq_list', [st('c19', 'seq_list', 'c19', 600000, 6000000)],
+    'C19': seq_prop('seq_list', [st('c19', 'seq_list', 'c19', 600000, 6000000), st('c19-clang++', 'seq_list_clang', 'c19', 250000, 3000000)],
         'seeded histories with a generation-clock jump fault (guarded accessor) placed anywhere, including inside nested invocations; lockstep snapshot model with the statement\'s own relaxation for invocations in progress at the wrap',
         'The wrap of the 32-bit generation counter is injected as a forward clock jump on the list\'s logical clock (k = 0..6 additions before the maximum) at seeded points of re-entrant copy/move/swap histories. The harness learns the wrap moment by observation; only invocations in progress at that moment get the statement\'s relaxation, every later invocation is held to the strict model.',
         'Trusted: the accessor added under EVENTPP_VERIF sets the counter consistently (forward only, every existing generation stays <= the counter).',
@@ -142,7 +142,7 @@ PROPS = {
         'Trusted: the models; the moved-from std::map is assumed empty (true for libstdc++). Self-move-assignment is not generated. The heterogeneous classes run in the third stage (same pool operations on HeterCallbackList, HeterEventDispatcher, HeterEventQueue); the fourth stage copies dispatchers/queues that carry MixinFilter / MixinHeterFilter filters and checks that the copy runs the same filters in the same order.',
         'Each evaluation is one seeded history over a pool of up to 4 (lists/dispatchers) or 3 (queues) objects. Non-trivial = the history contains a copy/move/assign/swap; distinct = distinct plan hashes.'),
     'C08': seq_prop('seq_list', [st('c08-list', 'seq_list', 'c08', 250000, 5000000), st('c08-queue', 'seq_queue', 'c08', 200000, 4000000),
-         st('c08-exceptions-list', 'seq_list', 'c09', 6000, 200000, 120, 1200), st('c08-exceptions-queue', 'seq_queue', 'c09', 4000, 120000, 120, 1200)],
+         st('c08-exceptions-list', 'seq_list', 'c09', 6000, 200000, 120, 1200), st('c08-exceptions-queue', 'seq_queue', 'c09', 4000, 120000, 120, 1200), st('c08-exceptions-anydata', 'seq_anydata', 'c09', 30000, 300000, 120, 1200)],
         'live-instance ledger enforced as an invariant at every quiescent point of seeded ownership-stress programs (removal during invocation, recycled slots, copy/move/swap chains, clearEvents, destruction with pending events, generation-counter jumps), under ASan; the same ledger is also an invariant of every C03/C06/C07/C11 simulated schedule and of every C09 fault run',
         'Every construction and destruction of every harness callback, listener and argument object is recorded by address. Immediately flagged: double destruction, copy/move/invoke of a non-live or wrong-type instance. At every quiescent point: a callback that is in no container has no live instance, a stored one has at least one per holder; arguments of cleared events are gone when clearEvents returns; after destroying every container nothing is alive.',
         'Trusted: the ledger (sim/ledger.h). The number of transient copies std::function makes is never counted, only liveness at quiescence. The documentation lets queue slots keep arguments until reuse; the check asks no more than the statement.',
@@ -155,7 +155,7 @@ PROPS = {
         'Each evaluation is one seeded plan of 4-12 operations together with ALL its single-fault re-executions (evaluations counts plans; executions_including_fault_reruns counts every execution). Non-trivial = contains an invocation / processing call; distinct = distinct plan hashes.',
         level='fault_enumeration'),
     'C20': seq_prop('cfg', [
-            st('c20-policies-list', 'seq_list', 'c20', 20000, 400000), st('c20-policies-queue', 'seq_queue', 'c20', 20000, 400000),
+            st('c20-policies-list', 'seq_list', 'c20', 20000, 400000), st('c20-policies-queue', 'seq_queue', 'c20', 20000, 400000), st('c20-remover-storage', 'seq_remover', 'c20', 100000, 2000000),
             {'name': 'c20-build-matrix', 'bin': 'seq_list', 'bins': ['seq_queue', 'seq_disp'], 'mode': 'c20', 'custom': _cfg_stage, 'runs': {'quick': 1500, 'thorough': 20000}}],
         'differential replay: the same seeded plans executed under the Threading x Map x Callback policy variants and three object-storage fill patterns inside one binary, and under a compiler x language-standard x optimisation build matrix; the event-log hashes (every result, trace and argument value) must agree with each other and with the model',
         'Stage 1-2: every plan (C01/C10-style list and dispatcher histories with copy/move/swap; C05/C10-style queue histories) is executed under 9 list/dispatcher policy variants (Single / Multiple / SpinLock / SimMutex threading, std::map / std::unordered_map, std::function / custom callback storage) resp. 3 queue variants, each with three storage fill patterns (random, 0xFF, 0x00): 27 resp. 9 executions per plan whose event logs must be identical. Stage 3: the plans (plus the C04 dispatcher matrix, which covers ArgumentPassingMode and key kinds) are written to a file and replayed by builds made with g++ 12 and clang++ 14 at -std=c++11/14/17/20 and -O0/-O2 (4 builds for quick, all 16 for thorough) plus the sanitizer reference build; the per-plan log hashes of all builds must be equal.',
